@@ -203,18 +203,26 @@ func (s *Server[StateT]) handleOpenFile(ctx *Context[StateT]) error {
 }
 
 type readFileResponseWriter struct {
-	dataLength int32
-	upstream   io.Writer
+	headerSent bool
+	headerErr  error
+	wr         *proto.Writer
 }
 
-func (w *readFileResponseWriter) WriteHeader(length int32) { w.dataLength = length }
+func (w *readFileResponseWriter) WriteHeader(length int32) {
+	w.headerSent = true
+	w.headerErr = w.wr.SendReadFileResultLen(length)
+}
 
 func (w *readFileResponseWriter) Write(p []byte) (n int, err error) {
-	if w.dataLength <= 0 {
+	if !w.headerSent {
 		return 0, fmt.Errorf("WriteHeader wasn't called")
 	}
 
-	return w.upstream.Write(p)
+	if w.headerErr != nil {
+		return 0, w.headerErr
+	}
+
+	return w.wr.Writer.Write(p)
 }
 
 func (s *Server[StateT]) handleReadFile(ctx *Context[StateT]) error {
@@ -223,10 +231,13 @@ func (s *Server[StateT]) handleReadFile(ctx *Context[StateT]) error {
 		return fmt.Errorf("read read file params failed: %w", err)
 	}
 
-	return s.Handler.HandleReadFile(ctx, toRead, off, &readFileResponseWriter{
-		dataLength: -1,
-		upstream:   ctx.wr.Writer,
-	})
+	w := &readFileResponseWriter{wr: &ctx.wr}
+
+	if err := s.Handler.HandleReadFile(ctx, toRead, off, w); err != nil {
+		return err
+	}
+
+	return w.headerErr
 }
 
 func (s *Server[StateT]) handleReadFileCritical(ctx *Context[StateT]) error {
